@@ -177,11 +177,30 @@ Proof.
   rewrite reg16_char_parse, (neutral_not_plus rest Hn). pose proof (neutral_hd rest Hn) as Hh.
   destruct rest as [|c r']; [reflexivity|]. cbn in Hh. apply negb_true_iff in Hh. rewrite Hh. reflexivity.
 Qed.
-Theorem index_predec_roundtrip r rest : instruction_op (display_iop (OIndex (IPreDec r)) ++ rest) = Some (OIndex (IPreDec r), rest).
+Theorem index_predec_roundtrip r rest : neutral_rest rest -> instruction_op (display_iop (OIndex (IPreDec r)) ++ rest) = Some (OIndex (IPreDec r), rest).
 Proof.
-  cbn [display_iop display_index]. rewrite show_reg16_char. unfold instruction_op, index_ops.
+  intros Hn. cbn [display_iop display_index]. rewrite show_reg16_char. unfold instruction_op, index_ops.
   change (lit_tok "-" ((lit "-" ++ [reg16_char r]) ++ rest)) with (Some (reg16_char r :: rest)).
-  cbv beta iota. rewrite reg16_char_parse. reflexivity.
+  cbv beta iota. rewrite reg16_char_parse. pose proof (neutral_hd rest Hn) as Hh.
+  destruct rest as [|c r']; [reflexivity|]. cbn in Hh. apply negb_true_iff in Hh. rewrite Hh. reflexivity.
+Qed.
+(** a minus sign in front of a NAME that merely begins with x, y or z is no pre-decrement: the operand is an expression *)
+Lemma negated_name_not_index x c rest : is_idch c = true -> index_ops ("-"%char :: x :: c :: rest) = None.
+Proof.
+  intros H. unfold index_ops.
+  change (lit_tok "-" ("-"%char :: x :: c :: rest)) with (Some (x :: c :: rest)). cbv beta iota.
+  change (Lines.reg16 ("-"%char :: x :: c :: rest)) with (@None (Ast.reg16 * str)).
+  destruct (Lines.reg16 (x :: c :: rest)) as [[r r']|] eqn:E; [|reflexivity].
+  assert (Hr : r' = c :: rest).
+  { unfold Lines.reg16 in E. repeat match type of E with context [if ?b then _ else _] => destruct b end; inversion E; reflexivity. }
+  subst r'. rewrite H. reflexivity.
+Qed.
+Theorem negated_name_operand x c rest e rest' : is_idch c = true ->
+  expr_rule ("-"%char :: x :: c :: rest) = Some (e, rest') ->
+  instruction_op ("-"%char :: x :: c :: rest) = Some (OE e, rest').
+Proof.
+  intros H He. unfold instruction_op. rewrite (negated_name_not_index x c rest H).
+  change (Lines.reg8 ("-"%char :: x :: c :: rest)) with (@None (N * str)). rewrite He. reflexivity.
 Qed.
 Theorem index_postinc_roundtrip r rest : expr_rule rest = None -> instruction_op (display_iop (OIndex (IPostInc r)) ++ rest) = Some (OIndex (IPostInc r), rest).
 Proof.
